@@ -678,10 +678,8 @@ Proof.
       apply existsb_exists. exists (k, w). auto. }
     unfold blob_watch. simpl blob_fetch. rewrite (read_all_ok l Hg5).
     set (rs := valid_entries l).
-    set (o := fun k => match lookup_content k l with Some w => obs_of_content w | None => SGone end).
     assert (Hlook : forall k, lookup_cid k rs = match lookup_content k l with Some (CValid c) => Some c | _ => None end)
       by (intro k; apply lookup_valid_entries; exact Hnd).
-    change (blob_view nk (b, BList l)) with (map (fun k => (bkey b k, o k)) (seq 0 nk)).
     apply (Hall rs o).
     + apply valid_entries_nodup. exact Hnd.
     + intros k Hk. apply valid_entries_keys in Hk. apply Nat.ltb_lt. apply Hlt. exact Hk.
@@ -720,8 +718,6 @@ Proof.
           assert (Hk' : k < nk) by lia. specialize (Hsame k Hk'). rewrite <- (Hinv b k), Es in Hsame.
           unfold o in Hsame. destruct (lookup_content k l) as [w|] eqn:El; [|simpl in Hsame; discriminate].
           destruct w; simpl in Hsame; try discriminate.
-          + assert (existsb (fun kw => unreadable (snd kw)) l = true); [|congruence].
-            apply existsb_exists. exists (k, CAbsent). split; [apply lookup_content_in; exact El | reflexivity].
           + assert (existsb (fun kw => unreadable (snd kw)) l = true); [|congruence].
             apply existsb_exists. exists (k, CInvalid). split; [apply lookup_content_in; exact El | reflexivity].
           + assert (existsb (Nat.eqb k) (map fst (valid_entries l)) = true); [|congruence].
@@ -1027,3 +1023,18 @@ Example blob_nonvacuous :
     {| p_kind := KCreated; p_src := bkey 1 0; p_cid := Some 5; p_ok := true |};
     {| p_kind := KDeleted; p_src := bkey 1 0; p_cid := None; p_ok := true |} ].
 Proof. vm_compute. splits; reflexivity. Qed.
+
+(** ** Inside the guards: what the provider does there *)
+
+(** C18-F5: a poll whose listing contains a blob that cannot be read is abandoned
+    altogether: no processor call, nothing remembered differently (so every loaded
+    version — of the bad blob and of all others — is kept) *)
+Theorem blob_unreadable_poll_changes_nothing O fixed nk b st l :
+  existsb (fun kw => unreadable (snd kw)) l = true ->
+  blob_watch O fixed nk b st (BList l) = hres_nop st true.
+Proof. intro H. unfold blob_watch. simpl. rewrite (read_all_unreadable l H). reflexivity. Qed.
+
+(** C18-F6: when the blob named by the URL does not exist the poll is abandoned as well *)
+Theorem blob_single_absent_changes_nothing O fixed nk b st k :
+  blob_watch O fixed nk b st (BSingle k CAbsent) = hres_nop st true.
+Proof. reflexivity. Qed.
